@@ -41,6 +41,11 @@ UNWRAP = {"sorted", "deepcopy", "dict", "list", "tuple", "set", "frozenset", "co
 LOGGERS = {"logger", "logging", "_logger", "log", "warnings", "print", "LOGGER"}
 
 
+# rough CPU cost (seconds) of each quick tier: the cheapest relevant check runs first, a catch ends the mutant's run
+COST = {"C01": 800, "C02": 300, "C03": 100, "C04": 200, "C05": 330, "C06": 150, "C07": 450, "C08": 60, "C09": 250, "C10": 600, "C11": 500,
+        "C12": 700, "C13": 180, "C14": 150, "C15": 300, "C16": 60, "C17": 100, "C18": 400}
+
+
 def anchored():
     files = {}
     for l in open(os.path.join(ROOT, "properties.jsonl")):
@@ -356,7 +361,7 @@ def main():
     counts = {}
     try:
         with cf.ThreadPoolExecutor(a.jobs) as ex, open(a.out, "a") as fh:
-            futs = [ex.submit(stage, m, a.check_jobs, anch.get(m["file"], [])) for m in ms]
+            futs = [ex.submit(stage, m, a.check_jobs, sorted(anch.get(m["file"], []), key=lambda c: COST.get(c, 999))) for m in ms]
             for k, fu in enumerate(cf.as_completed(futs)):
                 r = fu.result()
                 v = r.get("verdict", "tests-" + r["tests"])
